@@ -1221,3 +1221,38 @@ def lift_consts(fn):
                 consts.append(c)
         return code.replace(co_consts=tuple(consts))
     return types.FunctionType(lift_code(fn.__code__), fn.__globals__, fn.__name__, fn.__defaults__, fn.__closure__)
+
+
+def lift_source(fn):
+    """Re-compile fn from its source text (read from the working tree at run time) with every str literal wrapped in LStr(...).
+    Unlike lift_consts this also covers '%s %s' % (a, b), which CPython >= 3.11 compiles into f-string byte code (format() of
+    each operand) when the left operand is a literal."""
+    import inspect, ast, textwrap
+    src = textwrap.dedent(inspect.getsource(fn))
+    tree = ast.parse(src)
+
+    class T(ast.NodeTransformer):
+        def visit_JoinedStr(self, node):
+            return node
+
+        def visit_Constant(self, node):
+            if isinstance(node.value, str):
+                return ast.copy_location(ast.Call(func=ast.Name('__LStr__', ast.Load()), args=[node], keywords=[]), node)
+            return node
+
+        def visit_FunctionDef(self, node):
+            body = node.body
+            doc = None
+            if body and isinstance(body[0], ast.Expr) and isinstance(getattr(body[0], 'value', None), ast.Constant) \
+                    and isinstance(body[0].value.value, str):
+                doc, body = body[0], body[1:]
+            node.body = ([doc] if doc else []) + [self.visit(b) for b in body]
+            node.decorator_list = []
+            return node
+    tree = ast.fix_missing_locations(T().visit(tree))
+    g = dict(fn.__globals__)
+    g['__LStr__'] = LStr
+    code = compile(tree, getattr(fn, '__code__', None) and fn.__code__.co_filename or '<lifted>', 'exec')
+    ns = {}
+    exec(code, g, ns)
+    return ns[fn.__name__]
